@@ -728,6 +728,7 @@ pub fn run_c15(ctx: &Ctx) -> (&'static str, Map<String, Value>) {
         .map(|t| {
             let rs = cfgs
                 .iter()
+                .take(if *t >= 4 { 3 } else { cfgs.len() })
                 .map(|(hid, w, h)| {
                     let n = hid.n();
                     let seed = hex::encode(det_bytes(ctx.seed, &format!("c15s:{}", hid.name()), n));
